@@ -234,6 +234,7 @@ func (fr *frame) applyCall(cc *ssa.CallCommon, st *bstate, site ssa.Instruction,
 		if st.heap.keepPrivate {
 			fr.keepOwnedChannels(preH, st)
 		}
+		fr.keepMonotone(preH, st)
 		if callee == nil || !(callee.Pkg != nil && inModule(callee.Pkg.Pkg) || callee.Parent() != nil) {
 			fr.keepFreeVarCells(preH, st, args)
 		}
@@ -392,6 +393,7 @@ func (fr *frame) applySpec(spec *FuncSpec, name string, pnames []string, args []
 		if st.heap.keepPrivate {
 			fr.keepOwnedChannels(pre, st)
 		}
+		fr.keepMonotone(pre, st)
 	default:
 		for _, m := range spec.Modifies {
 			nh, err := env.havocLocation(st.heap, m)
@@ -1448,5 +1450,27 @@ func (fr *frame) keepFreeVarCells(pre *Heap, st *bstate, args []Val) {
 		}
 		key := f.cellKey(cell.Tm, pt.Elem())
 		f.assume(st, eq(app("select", f.hs.read(st.heap, key), cell.Tm), app("select", f.hs.read(pre, key), cell.Tm)), "captured variable "+fv.Name()+" is not reachable by the callee")
+	}
+}
+
+// keepMonotone: monotone scalar ghosts only grow across calls to unknown code.
+func (fr *frame) keepMonotone(pre *Heap, st *bstate) {
+	f := fr.f
+	for _, name := range sortedKeys(f.e.specs.ghosts) {
+		g := f.e.specs.ghosts[name]
+		if !g.Monotone || len(g.Params) != 0 {
+			continue
+		}
+		t, err := f.e.resolveType(g.Pkg, g.T)
+		if err != nil {
+			continue
+		}
+		key := f.ghostKey(g.Name, sortOfType(t), false, "")
+		a, b := f.hs.read(pre, key), f.hs.read(st.heap, key)
+		if kindOf(t) == KBool {
+			f.assume(st, implies(a, b), "monotone ghost "+name)
+		} else {
+			f.assume(st, app(">=", b, a), "monotone ghost "+name)
+		}
 	}
 }
